@@ -54,6 +54,7 @@ type hostileResp struct {
 	Where   string `json:"where,omitempty"`
 	Died    string `json:"died,omitempty"`    // filled by the parent
 	Timeout bool   `json:"timeout,omitempty"` // filled by the parent
+	Hang    bool   `json:"hang,omitempty"`    // filled by the parent: the timeout was confirmed by a second, longer run
 }
 
 func heapAllocBytes() uint64 {
